@@ -482,6 +482,30 @@ func suiteWire(c *Ctx) {
 		vcm := me.CreateViewChangeMessage(h, nv, pmsgs)
 		tV1 := fmt.Sprintf("V(%d;%d;%d;%d;%s;%s)", uint16(protocol.LEAN_HELIX_VIEW_CHANGE), uint64(inst), uint64(h), uint64(nv), tProof, tS(ids[1], sign(ids[1], vcHdrRaw(proofB))))
 		emit("viewchange-proof", "VC("+tV1+")", vcm, km)
+		// a received PREPARE whose SENDER section is readable but not in the builders' encoding (trailing bytes; the
+		// signature is valid): if the receive gate lets it through and it ends up among the prepared messages, the
+		// VIEW_CHANGE the factory builds from them must still be accepted on receipt and keep every signature
+		if len(pms) > 0 {
+			canonSender := (&protocol.SenderSignatureBuilder{MemberId: ids[1], Signature: sign(ids[1], refRaw(protocol.LEAN_HELIX_PREPARE, v))}).Build().Raw()
+			altSender := append(append([]byte{}, canonSender...), 0, 0, 0, 0)
+			pc := (&protocol.PrepareContentBuilder{SignedHeader: protocol.BlockRefBuilderFromRaw(refRaw(protocol.LEAN_HELIX_PREPARE, v)), Sender: protocol.SenderSignatureBuilderFromRaw(altSender)}).Build()
+			rawm := interfaces.NewPrepareMessage(pc).ToConsensusRawMessage()
+			c.Class("variant/sender-section")
+			if parsed, err := interfaces.ParseConsensusMessage(rawm); err == nil && parsed != nil {
+				if pmV, ok := parsed.(*interfaces.PrepareMessage); ok {
+					c.Nontrivial("variant-accepted/sender-section")
+					pmsV := append([]*interfaces.PrepareMessage{pmV}, pms[1:]...)
+					rawV := me.CreateViewChangeMessage(h, nv, &preparedmessages.PreparedMessages{PreprepareMessage: ppm, PrepareMessages: pmsV}).ToConsensusRawMessage()
+					content := append([]byte{}, rawV.Content...)
+					if _, err := interfaces.ParseConsensusMessage(&interfaces.ConsensusRawMessage{Content: content, Block: rawV.Block}); err != nil {
+						c.Violation("C20", "factory-message-rejected", fmt.Sprintf("a VIEW_CHANGE built by the factory from prepared messages one of which was received with a non-canonical sender section is rejected on receipt: %v", err), "content="+hex.EncodeToString(content))
+					}
+					if bad := wireSigFailures(km, content); len(bad) > 0 {
+						c.Violation("C20", "signature-lost-in-roundtrip", fmt.Sprintf("viewchange built from prepared messages one of which was received with a non-canonical sender section: %v no longer verify over the re-read bytes", bad), "content="+hex.EncodeToString(content))
+					}
+				}
+			}
+		}
 		// the same VIEW_CHANGE built the way the term builds it: the prepared messages come out of the library's own
 		// storage and extractor, and the log also holds a correctly signed PREPARE of that view for ANOTHER hash
 		// (a PREPARE is logged whatever its hash): every signature inside the proof must still verify after the
